@@ -5,7 +5,7 @@ import subprocess
 import z3
 
 from vf import driver, cfront
-from contracts.py import constexpr, preproc
+from contracts.py import constexpr, preproc, parsedecl
 
 PID = 'C30'
 
@@ -46,6 +46,11 @@ def concretise(ob, model):
               'extern "Python" {', 'extern "Python" int f(int)']
     decls += ["int a[0x1p3];", "enum e { A = 0x1.p3 };", "struct s { int a:0X1P2; };", "int a[0x.8p1];", "int a[1.5e3];",
               "#define X 08\n", "#define X abc\n", "#define X 0xg\n", "static const int X = 09;"]
+    # initializers of every shape after a unary operator (Parser._parse_decl)
+    decls += ["#define B 5\nstatic const int K = -B;", "static const int K = -(1 + 2);", "static const int K = - -5;",
+              "static const int K = -+5;", "static const int K = -sizeof(int);", "static const int K = -(int)5;",
+              "int v = -w;", "static const int K = ~5;", "static const int K = -'a';", "static const long K = -0x10;",
+              "static const int K = -a[0];", "static const int K = -f(1);", "static const int K = -x.y;"]
     return REPLAY % dict(decls=decls)
 
 
@@ -76,10 +81,14 @@ def macros_bounded(rep, tu):
 
 def main(tier, seed):
     return driver.run_property(
-        PID, tier, seed, py_items=constexpr.c30_items() + preproc.items(), concretise=concretise, extra=macros_bounded,
+        PID, tier, seed, py_items=constexpr.c30_items() + preproc.items() + parsedecl.items(), concretise=concretise, extra=macros_bounded,
         trusted=["scope of the proved part: the constant-expression evaluator Parser._parse_constant/_c_div (every "
                  "AST node class and operator): no built-in operation in it can raise anything but cffi's error "
                  "classes; recursive calls through the function's own contract",
+                 "Parser._parse_decl, the chain that classifies a variable declaration: a segment contract run for "
+                 "decl.init = None and an instance of every node class of the installed pycparser (attribute sets from "
+                 "its __slots__; reading any other attribute is AttributeError), and for a UnaryOp every operator "
+                 "spelling x every node class as operand; the literal regex test is an arbitrary boolean",
                  "bounded stand-in (not proof): '#define' literal processing on all short values, real code",
                  "not decided: pycparser (third party: may raise only ParseError is an assumption the property does not "
                  "grant), the regex preprocessing of cdef text, the rest of cparser.py, and the C type-string parser "
